@@ -135,3 +135,49 @@ func vC11Session(maxReq int) {
 // larger configurations, explored delay-bounded (see check spec)
 func VerifC11_Shutdown4() { vC11Shutdown(4) }
 func VerifC11_Session3()  { vC11Session(3) }
+
+// (c) a fault after a flush and a reuse of the flushed tag: A (tag t, handler
+// ignores cancellation) is flushed, B reuses t and is in flight, A's handler
+// returns late at an explored moment, then the fault strikes.  Serving must
+// still return, with B's context cancelled.
+func VerifC11_FlushThenFault() {
+	s := newVSrv(2)
+	fault := ndChoice("fault", 3) // 0 read error, 1 peer close (EOF), 2 context cancel
+	t, f := Tag(1), Tag(2)
+	s.h.honour[0] = false
+	s.ch.fromPeer <- vReq(0, t, 0)
+	<-s.h.started
+	s.ch.fromPeer <- &Fcall{Type: Tflush, Tag: f, Message: MessageTflush{Oldtag: t}}
+	r := <-s.ch.toPeer
+	vAssert(r.Tag == f, "C07: the flush is acknowledged")
+	s.ch.fromPeer <- vReq(1, t, 1)
+	<-s.h.started
+	go func() {
+		for {
+			<-s.ch.toPeer
+		}
+	}()
+	lateA := ndChoice("lateA", 2) == 1
+	if lateA {
+		s.h.release[0] <- vResFor(0, 7, "")
+		vDrain()
+	}
+	switch fault {
+	case 0:
+		s.ch.errs <- errVMock
+	case 1:
+		s.ch.errs <- io.EOF
+	case 2:
+		s.cancel()
+	}
+	if !lateA {
+		// the handler that ignores cancellation returns once serving is shutting down
+		s.h.release[0] <- vResFor(0, 7, "")
+	}
+	err := <-s.served // a serve loop that never returns is reported as a deadlock
+	vAssert(err != nil, "C11: serving returns the terminal error")
+	vAssert(s.h.ctxs[1].Err() != nil, "C11: every in-flight handler's context is cancelled when serving returns")
+	vDrain()
+	vAssert(s.h.returned[1], "C11: handlers that honour cancellation have returned")
+	vReach("c11.flushfault")
+}
